@@ -172,6 +172,17 @@ fn check_dom(prop: &str, tier: Tier) {
         transitions += n;
         execs += n;
         runs.insert("deep_and_wide_shape_probes".into(), json!({"subprocess_runs": n, "sizes": [12, 40, 1000, 100000, 600000], "shapes": ["chain", "star"], "operations": vh::deepdom::PROBES}));
+        let (problems, n) = vh::domprobes::run_all();
+        println!("{} wide-parent / rootless-destination probes: {} cases, {} problems", prop, n, problems.len());
+        for (key, what, case, mine) in problems {
+            if mine == prop {
+                run.violation(&key, &what, || case);
+            }
+        }
+        states += n;
+        transitions += n;
+        execs += n;
+        runs.insert("wide_parent_and_rootless_destination_probes".into(), json!({"cases": n, "widths": "1..=70, 255, 256, 257, 1000 (every child position up to 70, else first / middle / last 70)", "operations": ["destroy", "transfer_within", "transfer"], "rootless_destination_residents": [0, 1, 2, 3]}));
     }
     if prop == "C12" {
         let (out, cfgs) = now_part(&run, tier);
@@ -420,6 +431,12 @@ fn replay(prop: &str, file: &std::path::Path) {
             std::process::exit(if fs.is_empty() { 0 } else { 1 });
         }
         "C12" if case.get("tokens").is_some() => simple_replay("C12", vh::c12b::replay(case)),
+        "C09" | "C10" | "C11" if case.get("domprobe").is_some() => {
+            let r = vh::domprobes::replay(case);
+            println!("observed: {}", r);
+            println!("REPLAY property={} outcome={}", prop, if r == "ok" { "holds" } else { "violation" });
+            std::process::exit(if r == "ok" { 0 } else { 1 });
+        }
         "C09" | "C10" | "C11" if case.get("deepdom").is_some() => {
             let size = case["deepdom"]["size"].as_u64().unwrap_or(12) as usize;
             let what = case["deepdom"]["probe"].as_str().unwrap_or("descendants").to_owned();
